@@ -296,7 +296,7 @@ Definition step (sc : scenario) (s : state) (e : event) : option state :=
                      r_owns := r_owns r; r_placed := r_placed r; r_seen := r_seen r ++ names;
                      r_updated := r_updated r; r_check := r_check r; r_summary := r_summary r;
                      r_teardown := r_teardown r; r_setup := r_setup r; r_creator := r_creator r |} in
-        Some {| created := true; st := st s; bl := bl s; ids := ids s; next_index := next_index s;
+        Some {| created := created s; st := st s; bl := bl s; ids := ids s; next_index := next_index s;
                 holder := Some r'; marker := marker s; complete := complete s; canceled := canceled s;
                 rows := rows s; pending := remove_rows rs (pending s); processed := processed s ++ rs;
                 hpc := hpc s; nodes := nodes s; handed := handed s; indices := indices s;
@@ -318,7 +318,7 @@ Definition step (sc : scenario) (s : state) (e : event) : option state :=
                      r_owns := r_owns r; r_placed := r_placed r; r_seen := r_seen r ++ [j];
                      r_updated := r_updated r; r_check := r_check r; r_summary := r_summary r;
                      r_teardown := r_teardown r; r_setup := r_setup r; r_creator := r_creator r |} in
-        Some {| created := true; st := st s; bl := bl s; ids := ids s; next_index := next_index s;
+        Some {| created := created s; st := st s; bl := bl s; ids := ids s; next_index := next_index s;
                 holder := Some r'; marker := marker s; complete := complete s; canceled := canceled s;
                 rows := rows s ++ [rw]; pending := pending s; processed := processed s ++ [rw];
                 hpc := hpc s; nodes := nodes s; handed := handed s; indices := indices s;
@@ -335,7 +335,7 @@ Definition step (sc : scenario) (s : state) (e : event) : option state :=
                      r_placed := r_placed r; r_seen := r_seen r; r_updated := r_updated r; r_check := r_check r;
                      r_summary := r_summary r; r_teardown := r_teardown r; r_setup := r_setup r;
                      r_creator := r_creator r |} in
-        Some {| created := true; st := st s; bl := bl s; ids := ids s; next_index := next_index s;
+        Some {| created := created s; st := st s; bl := bl s; ids := ids s; next_index := next_index s;
                 holder := Some r'; marker := true; complete := complete s; canceled := canceled s;
                 rows := rows s; pending := pending s; processed := processed s; hpc := hpc s; nodes := nodes s;
                 handed := handed s; indices := indices s; launched := launched s;
@@ -362,7 +362,7 @@ Definition step (sc : scenario) (s : state) (e : event) : option state :=
                      r_placed := r_placed r ++ names; r_seen := r_seen r; r_updated := r_updated r;
                      r_check := r_check r; r_summary := r_summary r; r_teardown := r_teardown r;
                      r_setup := r_setup r; r_creator := r_creator r |} in
-        Some {| created := true; st := st s; bl := bl s; ids := ids s; next_index := next_index s;
+        Some {| created := created s; st := st s; bl := bl s; ids := ids s; next_index := next_index s;
                 holder := Some r'; marker := marker s; complete := complete s; canceled := canceled s;
                 rows := rows s; pending := pending s; processed := processed s;
                 hpc := match res with
@@ -391,7 +391,7 @@ Definition step (sc : scenario) (s : state) (e : event) : option state :=
                      r_owns := r_owns r; r_placed := r_placed r; r_seen := r_seen r; r_updated := true;
                      r_check := r_check r; r_summary := r_summary r; r_teardown := r_teardown r;
                      r_setup := r_setup r; r_creator := r_creator r |} in
-        Some {| created := true; st := snap_st sn; bl := snap_bl sn; ids := sn_ids sn; next_index := sn_index sn;
+        Some {| created := created s; st := snap_st sn; bl := snap_bl sn; ids := sn_ids sn; next_index := sn_index sn;
                 holder := Some r'; marker := marker s; complete := complete s; canceled := canceled s;
                 rows := rows s; pending := pending s; processed := processed s; hpc := hpc s; nodes := nodes s;
                 handed := handed s; indices := indices s; launched := launched s;
@@ -423,7 +423,7 @@ Definition step (sc : scenario) (s : state) (e : event) : option state :=
                      r_placed := []; r_seen := r_seen r; r_updated := true; r_check := r_check r;
                      r_summary := r_summary r; r_teardown := r_teardown r; r_setup := r_setup r;
                      r_creator := r_creator r |} in
-        Some {| created := true; st := st s; bl := bl s; ids := ids s; next_index := next_index s;
+        Some {| created := created s; st := st s; bl := bl s; ids := ids s; next_index := next_index s;
                 holder := Some r'; marker := false; complete := complete s; canceled := canceled s;
                 rows := rows s; pending := pending s; processed := processed s; hpc := hpc s; nodes := nodes s;
                 handed := handed s; indices := indices s; launched := launched s;
@@ -455,7 +455,7 @@ Definition step (sc : scenario) (s : state) (e : event) : option state :=
                        r_placed := r_placed r; r_seen := r_seen r; r_updated := r_updated r; r_check := r_check r;
                        r_summary := r_summary r; r_teardown := r_teardown r; r_setup := true;
                        r_creator := r_creator r |} in
-          Some {| created := true; st := st s; bl := bl s; ids := ids s; next_index := next_index s;
+          Some {| created := created s; st := st s; bl := bl s; ids := ids s; next_index := next_index s;
                   holder := Some r'; marker := marker s; complete := complete s; canceled := canceled s;
                   rows := rows s; pending := pending s; processed := processed s; hpc := hpc s; nodes := nodes s;
                   handed := handed s; indices := indices s; launched := launched s;
@@ -480,7 +480,7 @@ Definition step (sc : scenario) (s : state) (e : event) : option state :=
         if hk_node_setup (sc_hooks sc) && n_alive n && negb (n_setup n)
            && (match n_running n with [] => true | _ => false end)
            && negb (existsb (fun j => memN j (launched s)) (map fst (n_queue n))) then
-          Some {| created := true; st := st s; bl := bl s; ids := ids s; next_index := next_index s;
+          Some {| created := created s; st := st s; bl := bl s; ids := ids s; next_index := next_index s;
                   holder := holder s; marker := marker s; complete := complete s; canceled := canceled s;
                   rows := rows s; pending := pending s; processed := processed s; hpc := hpc s;
                   nodes := set_n {| n_id := id; n_alive := true; n_queue := n_queue n; n_running := n_running n;
@@ -496,7 +496,7 @@ Definition step (sc : scenario) (s : state) (e : event) : option state :=
         if hk_node_teardown (sc_hooks sc) && n_alive n && negb (n_teardown n)
            && (match n_running n with [] => true | _ => false end)
            && (match n_queue n with [] => true | _ => false end) then
-          Some {| created := true; st := st s; bl := bl s; ids := ids s; next_index := next_index s;
+          Some {| created := created s; st := st s; bl := bl s; ids := ids s; next_index := next_index s;
                   holder := holder s; marker := marker s; complete := complete s; canceled := canceled s;
                   rows := rows s; pending := pending s; processed := processed s; hpc := hpc s;
                   nodes := set_n {| n_id := id; n_alive := true; n_queue := n_queue n; n_running := n_running n;
@@ -513,7 +513,7 @@ Definition step (sc : scenario) (s : state) (e : event) : option state :=
     | Some r =>
       if r_summary r && negb (complete s) && negb (marker s)
          && (if hk_teardown (sc_hooks sc) then r_teardown r else true) then
-        Some {| created := true; st := st s; bl := bl s; ids := ids s; next_index := next_index s;
+        Some {| created := created s; st := st s; bl := bl s; ids := ids s; next_index := next_index s;
                 holder := holder s; marker := marker s; complete := true; canceled := canceled s;
                 rows := rows s; pending := pending s; processed := processed s; hpc := hpc s; nodes := nodes s;
                 handed := handed s; indices := indices s; launched := launched s;
@@ -525,7 +525,7 @@ Definition step (sc : scenario) (s : state) (e : event) : option state :=
     match acting s p with
     | Some r =>
       if negb (r_round r) then
-        Some {| created := true; st := st s; bl := bl s; ids := ids s; next_index := next_index s;
+        Some {| created := created s; st := st s; bl := bl s; ids := ids s; next_index := next_index s;
                 holder := Some {| r_pid := r_pid r; r_alive := true; r_st := r_st r; r_bl := r_bl r;
                      r_index := r_index r; r_out := r_out r; r_round := r_round r; r_canceled := true;
                      r_owns := r_owns r; r_placed := r_placed r; r_seen := r_seen r; r_updated := r_updated r;
@@ -542,7 +542,7 @@ Definition step (sc : scenario) (s : state) (e : event) : option state :=
     match acting s p with
     | Some r =>
       if memN id (ids s) then
-        Some {| created := true; st := st s; bl := bl s; ids := ids s; next_index := next_index s;
+        Some {| created := created s; st := st s; bl := bl s; ids := ids s; next_index := next_index s;
                 holder := holder s; marker := marker s; complete := complete s; canceled := canceled s;
                 rows := rows s; pending := pending s; processed := processed s;
                 hpc := match find_h id (hpc s) with
@@ -564,7 +564,7 @@ Definition step (sc : scenario) (s : state) (e : event) : option state :=
       | HPending, None =>
         let nj := N.of_nat (length (h_jobs h)) in
         let workers := match h_nproc h with Some k => k | None => sc_cpus sc end in
-        Some {| created := true; st := st s; bl := bl s; ids := ids s; next_index := next_index s;
+        Some {| created := created s; st := st s; bl := bl s; ids := ids s; next_index := next_index s;
                 holder := holder s; marker := marker s; complete := complete s; canceled := canceled s;
                 rows := rows s; pending := pending s; processed := processed s;
                 hpc := set_h id HRunning (hpc s);
@@ -583,7 +583,7 @@ Definition step (sc : scenario) (s : state) (e : event) : option state :=
       | Some [] =>
         if n_alive n && negb (memN j (launched s)) && (N.of_nat (length (n_running n)) <? n_depth n)
            && (if hk_node_setup (sc_hooks sc) then n_setup n else true) && negb (n_teardown n) then
-          Some {| created := true; st := st s; bl := bl s; ids := ids s; next_index := next_index s;
+          Some {| created := created s; st := st s; bl := bl s; ids := ids s; next_index := next_index s;
                   holder := holder s; marker := marker s; complete := complete s; canceled := canceled s;
                   rows := rows s; pending := pending s; processed := processed s; hpc := hpc s;
                   nodes := set_n {| n_id := id; n_alive := true;
@@ -607,7 +607,7 @@ Definition step (sc : scenario) (s : state) (e : event) : option state :=
           match lookup j (n_queue n) with
           | Some _ =>
             if flag sc j && Z.eqb (rw_rc rw) 1 && has_failed_dep sc j (rows s) && negb (memN j (launched s)) then
-              Some {| created := true; st := st s; bl := bl s; ids := ids s; next_index := next_index s;
+              Some {| created := created s; st := st s; bl := bl s; ids := ids s; next_index := next_index s;
                       holder := holder s; marker := marker s; complete := complete s; canceled := canceled s;
                       rows := rows s ++ [rw]; pending := pending s ++ [rw]; processed := processed s; hpc := hpc s;
                       nodes := set_n {| n_id := id; n_alive := true;
@@ -621,7 +621,7 @@ Definition step (sc : scenario) (s : state) (e : event) : option state :=
           end
         else
           if memN j (n_running n) && Z.eqb (rw_rc rw) (jc_rc (job sc j)) then
-            Some {| created := true; st := st s; bl := bl s; ids := ids s; next_index := next_index s;
+            Some {| created := created s; st := st s; bl := bl s; ids := ids s; next_index := next_index s;
                     holder := holder s; marker := marker s; complete := complete s; canceled := canceled s;
                     rows := rows s ++ [rw]; pending := pending s ++ [rw]; processed := processed s; hpc := hpc s;
                     nodes := set_n {| n_id := id; n_alive := true; n_queue := n_queue n;
@@ -639,7 +639,7 @@ Definition step (sc : scenario) (s : state) (e : event) : option state :=
       match lookup j (n_queue n) with
       | Some b =>
         if n_alive n && memN d (row_names (rows s)) then
-          Some {| created := true; st := st s; bl := bl s; ids := ids s; next_index := next_index s;
+          Some {| created := created s; st := st s; bl := bl s; ids := ids s; next_index := next_index s;
                   holder := holder s; marker := marker s; complete := complete s; canceled := canceled s;
                   rows := rows s; pending := pending s; processed := processed s; hpc := hpc s;
                   nodes := set_n {| n_id := id; n_alive := true;
@@ -658,7 +658,7 @@ Definition step (sc : scenario) (s : state) (e : event) : option state :=
   | EBatchEnd id =>
     match find_h id (hpc s) with
     | Some h =>
-      Some {| created := true; st := st s; bl := bl s; ids := ids s; next_index := next_index s;
+      Some {| created := created s; st := st s; bl := bl s; ids := ids s; next_index := next_index s;
               holder := holder s; marker := marker s; complete := complete s; canceled := canceled s;
               rows := rows s; pending := pending s; processed := processed s;
               hpc := match h_state h with HCancelled => hpc s | _ => set_h id HGone (hpc s) end;
